@@ -18,10 +18,16 @@ STR = {
     "colon_space": "key: value", "space_hash": "text # not a comment", "dash_space": "- item", "flow_seq": "[a, b]", "flow_map": "{a: b}",
     "anchor": "&anchor", "alias": "*alias", "tag_bang": "!tag", "percent": "%TAG", "at_sign": "@at", "backquote": "`bq`",
     "single_quote": "it's", "double_quote": 'say "x"', "backslash": "back\\slash\\n", "nonascii": "héllo ✓ 日本",
-    "control": "bell\u0007", "tab": "a\tb", "html_chars": "<b>&amp;</b> a<b && c>d", "escape_like": "^[^\\u003c\\u003e\\u0026]*$ and \\n \\\\u0041", "long_line": "word " * 40, "question": "? key", "pipe": "| literal", "gt": "> folded",
+    "control": "bell\u0007", "tab": "a\tb", "html_chars": "<b>&amp;</b> a<b && c>d", "escape_like": "^[^\\u003c\\u003e\\u0026]*$ and \\n \\\\u0041", "long_line": "word " * 40,
+    "nonbmp": "dog \U0001F436 and \U0001D11E", "line_sep": "first\u2028second \u2029 third", "solidus": "a/b </script> http://x/y", "question": "? key", "pipe": "| literal", "gt": "> folded",
 }
 NUM = {"big_int_2p53p1": "9007199254740993", "uint64_max": "18446744073709551615", "float_1e21": "1e21", "float_0_1": "0.1",
        "neg_zero": "-0.0", "float_integral": "1.0", "small_exp": "1e-7"}
+
+
+# classes for which the input is ALSO given as JSON written by an encoder that escapes more than it must (every
+# non-ASCII character as \\uXXXX - surrogate pairs above the BMP -, the solidus as \\/): the same document
+ESCAPED_INPUT = ("nonbmp", "line_sep", "solidus", "nonascii", "control", "html_chars")
 
 
 def doc_for(c):
@@ -77,6 +83,7 @@ def check(run, replay=None):
     # every command variant at least with a plain and an ambiguous string and a number
     allc = sorted((e for t, e in gen["emitted"] if t == "CASE"), key=lambda c: json.dumps(c, sort_keys=True))
     must = [c for c in allc if c["cls"] in ("int_like", "multiline", "float_1e21", "escape_like", "html_chars") and c["pos"] in ("default", "extension", "propname")]
+    must += [c for c in allc if c["cls"] in ESCAPED_INPUT and c["pos"] in ("default", "extension")]
     # numbers at the edge of float64 / int64 through every command (the YAML writer of each command is its own code)
     must += [c for c in allc if c["num"] and c["cls"] in ("big_int_2p53p1", "uint64_max", "float_1e21")]
     cases += [c for c in must if c not in cases]
@@ -119,9 +126,15 @@ def check(run, replay=None):
         if din[0]["digest"] != din[1]["digest"] or din[0]["digest"] == "unreadable":
             shutil.rmtree(wd, ignore_errors=True)
             return dict(ev="Runs", id=i, case=c, runs=[], skipped=True, why="the two renderings of the input do not load to the same value")
-        for inf, ip in (("json", ij), ("yaml", iy)):
+        inputs = [("json", ij), ("yaml", iy)]
+        if c["cls"] in ESCAPED_INPUT:
+            ie = os.path.join(wd, "in-escaped.json")
+            open(ie, "w").write(json.dumps(json.loads(txt), ensure_ascii=True, sort_keys=True).replace("/", "\\/"))
+            if digest([ie])[0]["digest"] == din[0]["digest"]:
+                inputs.append(("json_escaped", ie))
+        for inf, ip in inputs:
             for of, compact in (("json", False), ("yaml", False), ("json", True)):
-                if compact and inf == "yaml":
+                if compact and inf != "json":
                     continue
                 ext = "json" if of == "json" else "yml"
                 op = os.path.join(wd, "out-%s-%s%s.%s" % (inf, of, "-c" if compact else "", ext))
@@ -147,6 +160,7 @@ def check(run, replay=None):
                 dg = digest([op])[0] if g.returncode == 0 else dict(digest="-")
                 runs.append(dict(inFmt=inf, outFmt=of, compact=compact, exit=g.returncode, digest=dg["digest"],
                                  crashed="panic:" in g.stderr or "goroutine " in g.stderr, err=g.stderr[-200:] if g.returncode else "",
+                                 xorderYaml="panic: yaml:" in g.stderr and "generator.WithAutoXOrder" in g.stderr,
                                  canon=dg.get("canon", "")[:1200] if c["pos"] in ("extension",) or True else ""))
         shutil.rmtree(wd, ignore_errors=True)
         return dict(ev="Runs", id=i, case=c, runs=runs, skipped=False)
@@ -165,7 +179,12 @@ def check(run, replay=None):
         if t == "REJECT" and e["line"] not in seen:
             seen.add(e["line"])
             ev = events[e["line"] - 1]; c = ev["case"]
-            run.violations.append(dict(signature="%s | %s %s at %s" % (e["why"], c["cmd"], c["cls"], c["pos"]), detail=ev))
+            sig = "%s | %s %s at %s" % (e["why"], c["cmd"], c["cls"], c["pos"])
+            crashed = [r for r in ev["runs"] if r["crashed"]]
+            if e["why"] == "the command crashed" and crashed and all(r.get("xorderYaml") and r["inFmt"] in ("json", "json_escaped") for r in crashed):
+                # one defect, one call site: keyed by the call site and the command, not by the string class
+                sig = "the command crashed | %s: WithAutoXOrder parses a JSON input with the YAML parser - JSON strings are not YAML scalars (the escapes \\/ and \\uD83D\\uDC36, a raw U+2028 in a key)" % c["cmd"]
+            run.violations.append(dict(signature=sig, detail=ev))
     nruns = sum(len(e["runs"]) for e in events)
     cov = dict(states=mc["states"] + gen["states"], transitions=mc["transitions"] + gen["transitions"], traces_validated_against_impl=len(events),
                evaluations=nruns, distinct_nontrivial=len(events), cli_runs=nruns, skipped_inputs=len(skipped),
